@@ -462,6 +462,9 @@ MUTANTS += [
          new='            p_xi = np.zeros(4, dtype=float)\n            for node in range(self.nnodes_element_r):\n                r_OP_node = qe[self.nodalDOF_element_r[node]]\n                r_OP += N[node] * r_OP_node\n                r_OP_xi += N_xi[node] * r_OP_node\n\n                p_node = qe[self.nodalDOF_element_p[node]]\n                if p_node @ qe[self.nodalDOF_element_p[0]] < 0:\n                    p_node = -p_node\n                p += N[node] * p_node\n                p_xi += N_xi[node] * p_node\n\n            # transformation matrix\n            A_IB = Exp_SO3_quat(p, normalize=True)\n\n            # dilatation and shear strains\n            B_Gamma_bar = A_IB.T @ r_OP_xi\n\n            # curvature, Rucker2018 (17)\n            B_Kappa_bar = T_SO3_quat(p, normalize=True) @ p_xi\n\n            return r_OP, A_IB, B_Gamma_bar, B_Kappa_bar\n', expect="C11.R2"),
 ]
 NEUTRAL = [
+    dict(id="c11-n-r7", what="rod _M_coo: loop variable renamed", file=RODB_,
+         old="        for el in range(self.nelement):\n            # extract element degrees of freedom\n            elDOF_u = self.elDOF_u[el]\n\n            # sparse assemble element mass matrix\n            self.__M[elDOF_u, elDOF_u] = self.M_el(el)",
+         new="        for e in range(self.nelement):\n            elDOF_u = self.elDOF_u[e]\n            self.__M[elDOF_u, elDOF_u] = self.M_el(e)"),
     dict(id="c11-n-r6", what="rod r_OP_q accumulates into a private copy", file=RODB_,
          old="        return r_OC_q + np.einsum(\"ijk,j->ik\", A_IB_q, B_r_CP)\n\n    def v_P(", new="        r_OP_q = r_OC_q.copy()\n        r_OP_q += np.einsum(\"ijk,j->ik\", A_IB_q, B_r_CP)\n        return r_OP_q\n\n    def v_P("),
 ]
